@@ -92,18 +92,23 @@ func (m Member) build(pkg string) (z []byte, err error) {
 	}
 	z = b.Bytes()
 	if m.HCRC && pkg == "gzip" {
-		g := refinflate.ParseGzip(z, false)
-		if g.Verdict != refinflate.CValid || len(g.Members) != 1 {
-			return nil, fmt.Errorf("harness: cannot add FHCRC: %v", g.Verdict)
-		}
-		hl := g.Members[0].BodyStart
-		hdr := append([]byte(nil), z[:hl]...)
-		hdr[3] |= 2
-		c := crc32.ChecksumIEEE(hdr)
-		out := append(hdr, byte(c), byte(c>>8))
-		z = append(out, z[hl:]...)
+		return addHeaderCRC(z)
 	}
 	return z, nil
+}
+
+// addHeaderCRC sets FHCRC on a single gzip member and inserts the CRC16 of its header.
+func addHeaderCRC(z []byte) ([]byte, error) {
+	g := refinflate.ParseGzip(z, false)
+	if g.Verdict != refinflate.CValid || len(g.Members) != 1 {
+		return nil, fmt.Errorf("harness: cannot add FHCRC: %v", g.Verdict)
+	}
+	hl := g.Members[0].BodyStart
+	hdr := append([]byte(nil), z[:hl]...)
+	hdr[3] |= 2
+	c := crc32.ChecksumIEEE(hdr)
+	out := append(hdr, byte(c), byte(c>>8))
+	return append(out, z[hl:]...), nil
 }
 
 func latin1String(t *rapid.T, label string) string {
